@@ -13,9 +13,30 @@ def mk_case(impl, N, origin, progs, sched, meta=None):
     m = dict(impl=impl, N=N, origin=origin, progs=progs, sched=sched); m.update(meta or {})
     return Case(line, coq, m)
 
+def mk_stress(impl, N, T, ops, seed):
+    """free-running: T threads (even ones mostly enqueue unique values, odd ones mostly dequeue) on a queue of capacity N, then a drain"""
+    return Case("zcq impl=%s N=%d T=%d ops=%d seed=%d ; S" % (impl, N, T, ops, seed), None, dict(impl=impl, N=N, T=T, ops=ops, seed=seed, profile="stress"))
+
+def oracle_stress(case, recs):
+    """conservation + FIFO: every accepted enqueue is returned exactly once (by a dequeue or by the final drain), nothing else is returned, a
+    consumer sees one producer's elements in enqueue order, no panic"""
+    hits = []
+    r = {x[2]: (x[3], x[4]) for x in recs if x[0] == "ret"}
+    for x in recs:
+        if x[0] == "panic": hits.append((None, "a queue operation panicked in thread %d" % x[1]))
+    if 31 in r:
+        acc, ret = r[31]; twice, never = r[32]; disorder = r.get(33, (0, 0))[0]
+        if twice: hits.append((None, "%d elements were dequeued twice" % twice))
+        if never: hits.append((None, "%d dequeued elements were never enqueued (torn / invented payloads)" % never))
+        if acc != ret: hits.append((None, "%d enqueues were accepted but %d elements came back (dequeues + final drain): elements were lost or duplicated" % (acc, ret)))
+        if disorder: hits.append((None, "%d times a consumer got one producer's elements out of enqueue order" % disorder))
+    elif not hits: hits.append((None, "no result"))
+    return hits
+
 def parse_case_line(line):
     secs = [s.strip() for s in line.split(";")]
     params = dict(kv.split("=") for kv in secs[0].split()[1:])
+    if params["impl"].endswith("_stress"): return mk_stress(params["impl"], int(params["N"]), int(params.get("T", 4)), int(params.get("ops", 3000)), int(params.get("seed", 1)))
     progs, sched = [], []
     for sec in secs[1:]:
         if sec.startswith("S ") or sec == "S": sched = [int(x) for x in sec[1:].split()]
